@@ -702,13 +702,45 @@ func c21Group(p *core.Prog, r *core.Report) {
 	if f := r.Need(p, readsPk10, "groupByNextGroup"); f != nil {
 		info, g := f.Info(), f.Graph()
 		gP := f.Param(0)
-		isFld := func(fv *types.Var) func(ast.Expr) bool {
+		// g.<field>, or a local temporary that stands for it: a variable defined once
+		// from g.<field> before its use, the field (and g) not being stored between the
+		// definition and the use (introduced temporary / hoisted invariant).
+		gFixed := gP != nil && len(core.DefsOf(info, f.Decl.Body, gP)) == 0
+		isFldDirect := func(fv *types.Var) func(ast.Expr) bool {
 			return func(e ast.Expr) bool {
 				se, ok := ast.Unparen(e).(*ast.SelectorExpr)
 				return ok && core.FieldOf(info, se) == fv && core.ObjOf(info, se.X) == gP
 			}
 		}
+		isFld := func(fv *types.Var) func(ast.Expr) bool {
+			direct := isFldDirect(fv)
+			return func(e ast.Expr) bool {
+				if direct(e) {
+					return true
+				}
+				rhs, def, use, ok := g.Hoisted(e)
+				return ok && gFixed && direct(rhs) && g.StableBetween(def, use, g.Assigning(fv))
+			}
+		}
 		isRows, isI := isFld(rowsF), isFld(iF)
+		// len(g.seriesRows), or a temporary hoisted from it while g.seriesRows is not stored
+		isLenRows := func(e ast.Expr) bool {
+			lenOf := func(e ast.Expr) ast.Expr {
+				if cl, ok := ast.Unparen(e).(*ast.CallExpr); ok && len(cl.Args) == 1 && core.Builtin("len")(info, cl) {
+					return cl.Args[0]
+				}
+				return nil
+			}
+			if x := lenOf(e); x != nil {
+				return isRows(x)
+			}
+			if rhs, def, use, ok := g.Hoisted(e); ok && gFixed {
+				if x := lenOf(rhs); x != nil && isRows(x) {
+					return g.StableBetween(def, use, g.Assigning(rowsF))
+				}
+			}
+			return false
+		}
 		// the group handed out
 		resets := core.AllCalls(info, f.Decl.Body, call(readsPk10+".groupByCursor.reset"))
 		var jV types.Object
@@ -757,10 +789,7 @@ func c21Group(p *core.Prog, r *core.Report) {
 			inRange, sameKey := false, false
 			if conj {
 				for _, a := range atoms {
-					if rel, ok := core.X4Cmp(a, func(e ast.Expr) bool { return core.ObjOf(info, e) == jV }, func(e ast.Expr) bool {
-						cl, ok := ast.Unparen(e).(*ast.CallExpr)
-						return ok && core.Builtin("len")(info, cl) && isRows(cl.Args[0])
-					}); ok && rel.Op == token.LSS {
+					if rel, ok := core.X4Cmp(a, func(e ast.Expr) bool { return core.ObjOf(info, e) == jV }, isLenRows); ok && rel.Op == token.LSS {
 						inRange = true
 					}
 					if cl, ok := ast.Unparen(a).(*ast.CallExpr); ok && core.FName(core.Callee(info, cl)) == "bytes.Equal" && len(cl.Args) == 2 {
@@ -795,7 +824,7 @@ func c21Group(p *core.Prog, r *core.Report) {
 		resetN := g.NodeOf(resets[0])
 		setI := func(n *core.Node) bool {
 			as, ok := n.N.(*ast.AssignStmt)
-			return ok && len(as.Lhs) == 1 && len(as.Rhs) == 1 && isI(as.Lhs[0]) && core.ObjOf(info, as.Rhs[0]) == jV
+			return ok && len(as.Lhs) == 1 && len(as.Rhs) == 1 && isFldDirect(iF)(as.Lhs[0]) && core.ObjOf(info, as.Rhs[0]) == jV
 		}
 		iStores := g.Select(g.Assigning(iF))
 		okI := len(iStores) == 1 && setI(iStores[0]) && resetN != nil
@@ -810,10 +839,7 @@ func c21Group(p *core.Prog, r *core.Report) {
 		}
 		r.Check(okI, rule, f.String(), "advance-to-next-group", f.Pos(), "g.i = j, once, after the group was handed out and on every path: the next group starts where this one ended")
 		atEnd := core.AtomEdge(func(x ast.Expr, val bool) bool {
-			rel, ok := core.X4Cmp(x, func(e ast.Expr) bool { return core.ObjOf(info, e) == jV }, func(e ast.Expr) bool {
-				cl, ok := ast.Unparen(e).(*ast.CallExpr)
-				return ok && core.Builtin("len")(info, cl) && isRows(cl.Args[0])
-			})
+			rel, ok := core.X4Cmp(x, func(e ast.Expr) bool { return core.ObjOf(info, e) == jV }, isLenRows)
 			return ok && (rel.On(val) == token.EQL || rel.On(val) == token.GEQ)
 		})
 		eofs := g.Select(g.Assigning(eofF))
